@@ -8,6 +8,7 @@ enumerated for small x and (b) the large sweeps are deterministic (13 fixed prim
 """
 
 import os
+import signal
 from math import gcd
 
 from mc.core import Part
@@ -33,7 +34,7 @@ MANIFEST = dict(
     level='exploration',
     technique='bounded-exhaustive enumeration with a witness-controlling seam on random.randint, against '
               'sieve / brute-force / definition references',
-    text='is_prime: every witness a in [2,x-2] for all odd x < 3000 and for all composites < 12000 (60000 thorough) '
+    text='is_prime: every witness a in [2,x-2] for all odd x < 3000 and for all composites < 12000 (40000 thorough) '
          'that survive the trial division (primes never rejected, composite accepted iff a is a strong liar), '
          'round-count logic, all x < 2*10^5 (2*10^6) and 2^j+d (j <= 128, |d| <= 20; thorough j <= 200, |d| <= 40) with 13 fixed bases, known '
          'strong pseudoprimes/Carmichael numbers; next_prime/prev_prime on the same ranges; invert, gcdext (GMP '
@@ -68,12 +69,43 @@ def load():
     return g, g.random
 
 
+CUR = [None, None]          # the call in progress (for the watchdog)
+
+
 def call(f, *args):
     """-> ('ok', value) or ('exc', ExceptionTypeName)."""
+    CUR[0], CUR[1] = f, args
     try:
         return 'ok', f(*args)
     except Exception as e:           # noqa
         return 'exc', type(e).__name__
+
+
+class Hang(BaseException):
+    """Raised by the CPU-time watchdog inside a call that does not return."""
+
+
+def _on_alarm(signum, frame):
+    raise Hang()
+
+
+def watched(part, budget, body):
+    """Run body() under a CPU-time budget (seconds of this process, so machine load does not matter); a call
+    still running when the budget is spent is reported as non-termination (prev_prime/next_prime/
+    factor_prime_power loop until is_prime says yes)."""
+    signal.signal(signal.SIGVTALRM, _on_alarm)
+    signal.setitimer(signal.ITIMER_VIRTUAL, budget)
+    try:
+        body()
+    except Hang:
+        name = getattr(CUR[0], '__name__', '?')
+        args = list(CUR[1] or ())
+        part.violation(f'C25:{name}:no-termination',
+                       f'{name}{tuple(args)} still running after the job had used {budget} s of CPU (normal: a few s)',
+                       dict(fn='hang', name=name, args=args))
+        part.caps.append('a job was cut by the non-termination watchdog')
+    finally:
+        signal.setitimer(signal.ITIMER_VIRTUAL, 0)
 
 
 def bases_is_prime(x):
@@ -356,7 +388,7 @@ def jobs(tier, seed):
     q = tier == 'quick'
     js = []
     # (1) every witness
-    wl = 12000 if q else 60000
+    wl = 12000 if q else 40000
     spf = R.spf_table(wl)
     surv = [x for x in range(3000, wl) if spf[x] >= 59 and spf[x] != x]
     js += [dict(kind='witness_small', lo=a, hi=b) for a, b in chunks(0, 3000, 6)]
@@ -388,6 +420,8 @@ def jobs(tier, seed):
     ry, rfull = (200, 64) if q else (200, 128)
     ys = list(range(-2, ry))
     js += [dict(kind='ratrec', ys=ys[i::8], full=rfull) for i in range(8)]
+    for j in js:
+        j['budget'] = 120 if q else 900            # CPU seconds per job before the watchdog reports a hang
     order = ['fpp_big', 'witness_surv', 'large', 'fpp', 'sweep']          # longest first (pool balance only)
     js.sort(key=lambda j: order.index(j['kind']) if j['kind'] in order else len(order))
     return js
@@ -655,6 +689,18 @@ def job_fpp_big(part, g, seam, job):
                 for y in (p**d - 1, p**d + 1):     # even and > 2: a prime power iff a power of two (65537 - 1)
                     ck_fpp(part, g, seam, y, (2, y.bit_length() - 1) if y & (y - 1) == 0 else None)
                     cnt += 1
+    # every prime on both sides of the trial-division bound 2^10, exponents 1..12 (consistency of that bound with
+    # the root-extraction bound k*e <= bit_length), and products of neighbouring primes there
+    small = [p for p in range(2, 1100 if not job['thorough'] else 2100) if R.trial_is_prime(p)]
+    for i, p in enumerate(small):
+        for d in range(1, 13):
+            ck_fpp(part, g, seam, p**d, (p, d))
+            cnt += 1
+        if i + 1 < len(small) and p > 400:
+            q = small[i + 1]
+            for a, b in ((1, 1), (2, 1), (1, 2), (2, 2), (3, 3)):
+                ck_fpp(part, g, seam, p**a * q**b, None)
+                cnt += 1
     # products of two distinct primes (powers), every ordered combination of a window
     for i, p in enumerate(big):
         for q in big[i + 1:i + 4] + big[-2:]:
@@ -705,7 +751,7 @@ JOBS = dict(witness_small=job_witness_small, witness_surv=job_witness_surv, swee
 def run_job(job):
     g, seam = load()
     part = Part()
-    JOBS[job['kind']](part, g, seam, job)
+    watched(part, job.get('budget', 120), lambda: JOBS[job['kind']](part, g, seam, job))
     part.note('cases_' + job['kind'], part.evaluations)
     return part
 
@@ -713,8 +759,16 @@ def run_job(job):
 def replay(case):
     g, seam = load()
     part = Part()
+    watched(part, 30, lambda: _replay(part, g, seam, case))
+    return part
+
+
+def _replay(part, g, seam, case):
     fn = case['fn']
-    if fn == 'witness':
+    if fn == 'hang':
+        seam.script = None
+        call(getattr(g, case['name']), *case['args'])
+    elif fn == 'witness':
         ck_witness(part, g, seam, case['x'], tuple(case['script']), case['n'], case['truth'])
     elif fn == 'prime_fns':
         x = case['x']
